@@ -51,6 +51,8 @@ type vfGenOpts struct {
 	noBlock   bool
 	bigRTOMax bool
 	minRBuf   int
+	// trailingShutdown: a quarter of the transfers end with Shutdown() by one side
+	trailingShutdown bool
 }
 
 func genSideCfg(rt *rapid.T, label string, o vfGenOpts) vfSideCfg {
